@@ -63,12 +63,11 @@ impl UserModel<'_> {
                     .worksheet(sheet)?
                     .cell(row, column)
                     .cloned();
-                // If it is a spill cell we want to save the old value as None, because
-                // the value of a spill cell is determined by the anchor cell
-                let old_value = if matches!(old_value, Some(Cell::SpillCell { .. })) {
-                    None
-                } else {
-                    old_value
+                // The value of a spill cell is determined by its anchor, so only its
+                // style is saved (`None` means there was no cell at all)
+                let old_value = match old_value {
+                    Some(Cell::SpillCell { s, .. }) => Some(Cell::EmptyCell { s }),
+                    other => other,
                 };
                 self.model
                     .set_user_input(sheet, row, column, label.to_string())?;
